@@ -44,11 +44,15 @@ def corpus_G(prop):
     return load("G_" + prop)
 
 
-def corpus_D():
-    """programs (with instance-derived universes) of the demonstrations of the seeded changes"""
+def corpus_D(prop=None):
+    """programs (with instance-derived universes) of the demonstrations of the seeded changes; for a single-pass
+    property only the ones written for that property or for a whole-pipeline property"""
     if os.environ.get("VF_NO_D"):  # development switch: measure what the other corpora catch on their own
         return []
-    return [dict(e, outs=None) for e in load("D") if e.get("prop") not in ("C18", "C19")]
+    es = [dict(e, outs=None) for e in load("D") if e.get("prop") not in ("C18", "C19")]
+    if prop is not None:
+        es = [e for e in es if e.get("prop") in (prop, "C01", "C02", "C04", "C06", "C07", "C20")]
+    return es
 
 
 FAM_TRAIT = {"C08": "cleanup", "C09": "unused", "C10": "duplication", "C11": "symmetry", "C12": "minmax_chains", "C13": "sum_chains",
@@ -90,7 +94,7 @@ def tasks_single(prop, tier, seed):
     cfg = SINGLE[prop]
     tr = cfg["trait"]
     tasks = []
-    entries = corpus_T([tr]) + corpus_G(prop) + corpus_D()
+    entries = corpus_T([tr]) + corpus_G(prop) + corpus_D(prop)
     from . import variants
 
     entries = entries + variants.variant_corpus(entries, 10 if tier == "quick" else 40, 350 if tier == "quick" else 4000, salt=prop)
@@ -116,7 +120,7 @@ def tasks_single(prop, tier, seed):
 
 def tasks_C05(tier, seed):
     tasks = []
-    entries = corpus_T(["none"]) + corpus_G("C05") + corpus_D()
+    entries = corpus_T(["none"]) + corpus_G("C05") + corpus_D("C05")
     from . import variants
 
     entries = entries + variants.variant_corpus(entries, 8 if tier == "quick" else 40, 150 if tier == "quick" else 2000, salt="C05")
@@ -229,7 +233,7 @@ def run_e1(prop, tier, seed, tasks=None, fn="vf.e1:run_task", level_note=None):
             last[0] = time.time()
             print(f"[{prop}] {done}/{total} done, {time.time()-t0:.0f}s", flush=True)
 
-    results = pool.run_tasks(fn, tasks, workers=min(15, os.cpu_count() or 2), task_timeout=100 if tier == "quick" else 900, progress=progress)
+    results = pool.run_tasks(fn, tasks, workers=min(15, os.cpu_count() or 2), task_timeout=60 if tier == "quick" else 900, progress=progress)
     st, harness = selftest(prop, tier, seed, results)
     return finish_e1(prop, tier, seed, tasks, results, known, t0, extra_cov={"encoder_selftest": st}, extra_harness=harness)
 
@@ -238,7 +242,8 @@ def selftest(prop, tier, seed, results):
     """encoder validation against clingo, sabotage twins and second solvers on a seeded sample of the decided pairs"""
     rnd = random.Random(seed * 7919 + 13)
     cands = [r for r in results if r.get("status") == "held" and r.get("changed") and r.get("source") and r.get("result") and r.get("decided")
-             and not r.get("source_program") and (r["decided"][0].get("sizes", {}).get("A", {}).get("rules", 9999) < 800)]
+             and not r.get("source_program") and (r["decided"][0].get("sizes", {}).get("A", {}).get("rules", 9999) < 300)
+             and (r["decided"][0].get("sizes", {}).get("B", {}).get("rules", 9999) < 400)]
     rnd.shuffle(cands)
     n = 8 if tier == "quick" else 60
     ts = [{"id": r.get("id"), "source": r["source"], "result": r["result"], "in": r["in"], "V": r["V"], "universe": r["decided"][0]["universe"], "seed": seed + i}
